@@ -1,4 +1,5 @@
 import Crd.Props.C10
+import Crd.Props.C10Conv
 import Crd.Props.IO
 #print axioms Crd.Props.C10.degree_survives
 #print axioms Crd.Props.C10.key_survives
@@ -10,4 +11,10 @@ import Crd.Props.IO
 #print axioms Crd.Props.C10.text_conv_output_readable
 #print axioms Crd.Props.C10.decoded_is_valid
 #print axioms Crd.Props.C10.key_pattern_modelled
+#print axioms Crd.Props.C10.override_valid
+#print axioms Crd.Props.C10.modifyCmt_valid
+#print axioms Crd.Props.C10.prepare_valid
+#print axioms Crd.Props.C10.mapM_roundtrip
+#print axioms Crd.Props.C10.decoded_all_valid
+#print axioms Crd.Props.C10.write_conv_output_readable
 #print axioms Crd.Props.IO.io_sites_accounted
